@@ -16,6 +16,7 @@ import (
 	"sort"
 	"strings"
 	"sync"
+	"time"
 	"unicode/utf16"
 	"unicode/utf8"
 
@@ -148,8 +149,10 @@ type snapshot struct {
 }
 
 type serveCase struct {
-	Frames []string `json:"frames"` // hex
-	URIs   []string `json:"uris"`
+	Frames  []string `json:"frames"` // hex
+	URIs    []string `json:"uris"`
+	Freeze  bool     `json:"freeze"`   // freeze the rate limiter window (deterministic counting)
+	ResetAt []int    `json:"reset_at"` // frame indices before which the limiter window is made to expire
 }
 
 type serveResult struct {
@@ -169,7 +172,18 @@ func runServe(c serveCase) serveResult {
 		rd.frames = append(rd.frames, []byte(unhx(f)))
 	}
 	var srv *lsp.Server
+	resetAt := map[int]bool{}
+	for _, k := range c.ResetAt {
+		resetAt[k] = true
+	}
 	rd.onIdle = func(delivered int) {
+		if c.Freeze {
+			if resetAt[delivered] {
+				srv.VerifSetLastReset(time.Now().Add(-time.Hour)) // the next message starts a new window
+			} else {
+				srv.VerifSetLastReset(time.Now().Add(time.Hour)) // the window never expires by itself
+			}
+		}
 		sn := snapshot{Delivered: delivered, Docs: map[string]docObs{}}
 		b := out.Bytes()
 		sn.Out = hex.EncodeToString(b[seen:])
@@ -288,6 +302,7 @@ type sweepCfg struct {
 	Seed     int      `json:"seed"`
 	Emit     int      `json:"emit"` // number of sampled cases to emit for the model / python cross-check
 	MaxBad   int      `json:"max_bad"`
+	Pad      int      `json:"pad"` // how far past the last line / longest line the ranges go (default 1)
 }
 
 type sweepCase struct {
@@ -300,14 +315,14 @@ type sweepCase struct {
 }
 
 type sweepOut struct {
-	Docs      int         `json:"docs"`
-	Edits     int         `json:"edits"`
-	Ambiguous int         `json:"ambiguous"` // edits on which the protocol leaves a choice
-	NonStrict int         `json:"non_strict"`
-	BadCount  int         `json:"bad_count"`
-	Bad       []sweepCase `json:"bad"`
+	Docs            int         `json:"docs"`
+	Edits           int         `json:"edits"`
+	Ambiguous       int         `json:"ambiguous"` // edits on which the protocol leaves a choice
+	NonStrict       int         `json:"non_strict"`
+	BadCount        int         `json:"bad_count"`
+	Bad             []sweepCase `json:"bad"`
 	NonStrictSample []sweepCase `json:"non_strict_sample"`
-	Sample    []sweepCase `json:"sample"`
+	Sample          []sweepCase `json:"sample"`
 }
 
 func allLines(alpha []string, maxChars int) []string {
@@ -339,6 +354,9 @@ func runSweep(cfg sweepCfg) sweepOut {
 	lines := allLines(alpha, cfg.MaxChars)
 	if cfg.Stride < 1 {
 		cfg.Stride = 1
+	}
+	if cfg.Pad < 1 {
+		cfg.Pad = 1
 	}
 	// enumerate documents by index: 1..MaxLines lines, each any element of lines
 	var total int
@@ -386,10 +404,10 @@ func runSweep(cfg sweepCfg) sweepOut {
 						maxU = u
 					}
 				}
-				for sl := -1; sl <= len(dl)+1; sl++ {
-					for el := -1; el <= len(dl)+1; el++ {
-						for sc := -1; sc <= maxU+2; sc++ {
-							for ec := -1; ec <= maxU+2; ec++ {
+				for sl := -1; sl <= len(dl)-1+cfg.Pad; sl++ {
+					for el := -1; el <= len(dl)-1+cfg.Pad; el++ {
+						for sc := -1; sc <= maxU+cfg.Pad; sc++ {
+							for ec := -1; ec <= maxU+cfg.Pad; ec++ {
 								text := texts[cnt%len(texts)]
 								cnt++
 								got, pn := implApply(doc, sl, sc, el, ec, text)
@@ -508,6 +526,40 @@ func init() {
 				panic(err)
 			}
 			emitJSON(runSweep(c))
+		})
+		return 0
+	}
+	// lspframes: the frame reader alone on a byte stream (hook VerifReadMessage)
+	subcmds["lspframes"] = func(args []string) int {
+		eachLine(func(line []byte) {
+			var c struct {
+				Stream string `json:"stream"`
+			}
+			if err := json.Unmarshal(line, &c); err != nil {
+				panic(err)
+			}
+			in := []byte(unhx(c.Stream))
+			srv := lsp.NewServer(bytes.NewReader(in), io.Discard, nil)
+			items := []map[string]interface{}{}
+			for i := 0; i <= len(in)+1; i++ {
+				var body []byte
+				var err error
+				p := guarded(func() { body, err = srv.VerifReadMessage() })
+				if p != "" {
+					items = append(items, map[string]interface{}{"panic": firstLine(p)})
+					break
+				}
+				if err == io.EOF {
+					items = append(items, map[string]interface{}{"eof": true})
+					break
+				}
+				if err != nil {
+					items = append(items, map[string]interface{}{"err": true})
+					continue
+				}
+				items = append(items, map[string]interface{}{"body": hex.EncodeToString(body)})
+			}
+			emitJSON(map[string]interface{}{"items": items})
 		})
 		return 0
 	}
